@@ -14,6 +14,7 @@ pub fn def() -> PropDef {
         nontrivial,
         functional: true,
         rule: "all ordered pairs of a 60-element i64 boundary set and a 60-element u64 boundary set under + - * / % (direct Value operators, literals in source text, context variables), unary minus over the set, mixed int/uint/double pairs, plus uniform and log-uniform random pairs; a case is non-trivial when both operands are integers of the same kind (it reaches a checked_* arm); distinct = distinct (form, op, a, b)",
+        post: super::no_post,
         exhaustive_note: "boundary-pair enumeration is complete; random pairs are a sample",
     }
 }
